@@ -35,7 +35,7 @@ DIMS = [
     ('msg', ['plain', 'empty', 'multi', 'colon', 'dots', 'num', 'noted']),
     ('src', ['raise', 'call', 'helper', 'noraise', 'await', 'gen']),
     ('want', ['none', 'exact', 'stack', 'dotstack', 'wrongmsg', 'wrongtype', 'header', 'nontb', 'ellmsg', 'nameonly',
-              'indented', 'indented_wrongmsg']),
+              'indented', 'indented_wrongmsg', 'ell2over']),
     ('flags', [(), ('+IGNORE_EXCEPTION_DETAIL',), ('-ELLIPSIS',), ('+IGNORE_EXCEPTION_DETAIL', '-ELLIPSIS'),
                ('+IGNORE_WANT',)]),
     ('pos', ['only', 'middle', 'last']),
@@ -132,6 +132,12 @@ def build(cfg):
         w = ['some output text']
     elif want == 'ellmsg':
         w = [HDR, tname + ': ...'] if rest else None
+    elif want == 'ell2over':
+        # two wildcards and a literal ending; the middle piece only occurs inside that ending: asks for more
+        # than the message holds
+        first = excline_.split('\n')[0]
+        tail = first[-3:] if rest and len(first) - len(tname) >= 5 and '\n' not in excline_ else None
+        w = [HDR, tname + ': ...' + tail + '...' + tail] if tail and tail.strip() == tail else None
     elif want == 'nameonly':
         w = [HDR, tname.split('.')[-1]]
     if want != 'none' and w is None:
@@ -163,7 +169,7 @@ def build(cfg):
             w1 = wmsg.split('\n')[0].split(':')[0].split('.')[-1]
             m = matchref.matches(g1, w1, fd)
         exp = ('pass',) if m else ('mismatch', etype)
-    if '+IGNORE_WANT' in fl and src != 'noraise' and want in ('wrongmsg', 'wrongtype', 'nameonly', 'ellmsg', 'indented_wrongmsg'):
+    if '+IGNORE_WANT' in fl and src != 'noraise' and want in ('wrongmsg', 'wrongtype', 'nameonly', 'ellmsg', 'indented_wrongmsg', 'ell2over'):
         exp = ('unspec',)       # DESIGN 3.1: IGNORE_WANT together with a wrong traceback
     return {'text': '\n'.join(lines), 'exp': exp, 'pre': pre, 'post': post, 'etype': etype}
 
@@ -326,5 +332,67 @@ class TwoExcSpec(Spec):
         return {'atoms': atoms, 'outcome': v, 'case': {'doctest': text, 'expect': exp}, 'nontrivial': 1}
 
 
+class SharedConfigSpec(Spec):
+    """two doctests of one module share the run-wide configuration (as under the native runner / pytest): flags that
+    doctest A switches on with *block* directives must not decide how doctest B's traceback want is judged"""
+    prop = 'C03'
+    name = 'shared-config'
+    title = 'flags set by one doctest vs the traceback want of the next (shared default options)'
+    A_DIRS = ['+IGNORE_EXCEPTION_DETAIL', '+IGNORE_WANT', '-ELLIPSIS', '+SKIP']
+    B_WANTS = ['wrongmsg', 'ellmsg', 'nontb', 'exact', 'wrongtype']
+    CONFIGS = [None, {'ELLIPSIS': True}, {'NORMALIZE_WHITESPACE': True, 'IGNORE_EXCEPTION_DETAIL': False}]
+    max_len = 3
+
+    def __init__(self):
+        self.rule = ('default options %r (one dict shared by both doctests) x block directive of A in %r x want form of B in %r: '
+                     'B must get the verdict it gets when it runs alone; non-trivial = all' % (self.CONFIGS, self.A_DIRS, self.B_WANTS))
+
+    def histories(self, stats):
+        for c in range(len(self.CONFIGS)):
+            for a in self.A_DIRS:
+                for b in self.B_WANTS:
+                    yield (c, a, b)
+
+    def hist_cost(self, hist):
+        return 0
+
+    def run_case(self, hist):
+        import copy
+        from xdoctest.doctest_example import DocTest
+        c, a, bw = hist
+        ta = '>>> # xdoctest: %s\n>>> raise ValueError("a msg")\nTraceback (most recent call last):\nValueError: a msg\n' % a
+        cfg = {'cls': 'builtin', 'msg': 'plain', 'src': 'raise', 'want': bw, 'flags': (), 'pos': 'only', 'fplace': 'block'}
+        tb = build(cfg)['text']
+
+        def run_b(shared, first):
+            out = []
+            for text in ([ta, tb] if first else [tb]):
+                t = DocTest(text)
+                t.mode = 'native'
+                t.config['colored'] = False
+                if shared is not None:
+                    t.config['default_runtime_state'] = shared
+                t.global_namespace = harness.new_namespace(PRE3)
+                try:
+                    s_ = t.run(on_error='return', verbose=0)
+                    out.append((harness.verdict_of(s_), type(s_['exc_info'][1]).__name__ if s_['exc_info'] else None))
+                except BaseException as ex:
+                    if type(ex).__name__ == 'CaseTimeout':
+                        raise
+                    out.append(('raised', type(ex).__name__))
+            return out[-1]
+        alone = run_b(copy.deepcopy(self.CONFIGS[c]), False)
+        shared = copy.deepcopy(self.CONFIGS[c])
+        after = run_b(shared, True)
+        atoms = []
+        if after != alone:
+            atoms.append({'sig': 'shared-config:verdict-depends-on-previous-doctest',
+                          'msg': 'default options %r: after a doctest with block directive %s the doctest\n%s\nis %r, alone it is %r' % (
+                              self.CONFIGS[c], a, tb, after, alone)})
+        if shared != self.CONFIGS[c]:
+            atoms.append({'sig': 'shared-config:default-options-rewritten', 'msg': '%r -> %r' % (self.CONFIGS[c], shared)})
+        return {'atoms': atoms, 'outcome': '%s/%s' % alone, 'case': {'A': ta, 'B': tb, 'options': self.CONFIGS[c]}, 'nontrivial': 1}
+
+
 def specs(tier):
-    return [TableSpec(), TwoExcSpec()]
+    return [TableSpec(), TwoExcSpec(), SharedConfigSpec()]
